@@ -27,6 +27,10 @@ theorem resetMnChecked_tw (l : List Nat) {D : TaskId → Prop} (s s' : State) {t
         · cases h
   exact resetMnAll_tw l s s' h hm hs hsub (this l s s' hr)
 
+theorem resetMnChecked_redirects (l : List Nat) (s s' : State) (id : TaskId)
+    (h : resetMnChecked s id l = .ok s') : s'.redirects = s.redirects := by
+  fun_induction resetMnChecked s id l <;> grind [State.setWorker]
+
 /-- a worker record is replaced by one with the same sets -/
 theorem TWI.setWorker_same {D} {s : State} (hi : TWI D s) {wk wk' : Worker} (hfw : findWorker s.workers wk'.id = some wk)
     (e1 : wAsg wk' = wAsg wk) (e2 : wPre wk' = wPre wk) (e3 : wMn wk' = wMn wk) : TWI D (s.setWorker wk') := by
@@ -653,7 +657,31 @@ theorem taskReject_tw {s s' : State} {w : Nat} {id : TaskId} {rv : Option Nat} {
             simp only [requeue] at h
             refine requeue_tw (hi0.mono (fun u hu => hu.elim)) ht0 ?_ h
             rw [hid]; exact fun x v => rd_find_none hnone x v
-      · cases h
+      · -- multi-node: refused by its root worker before the start was reported
+        rename_i ws hs
+        split at h
+        · cases h
+        · split at h
+          · simp only [Except.ok.injEq, Prod.mk.injEq] at h
+            rw [← h.1]; exact hi0
+          · split at h
+            · simp only [Except.ok.injEq, Prod.mk.injEq] at h
+              rw [← h.1]; exact hi0
+            · split at h
+              · simp only [Except.ok.injEq, Prod.mk.injEq] at h
+                rw [← h.1]; exact hi0
+              · split at h
+                · cases h
+                · rename_i s1 hr
+                  have hst0 : stOf s0.tasks id = some task.state := hst
+                  rw [hs] at hst0
+                  obtain ⟨a, b'⟩ := resetMnChecked_tw _ s0 s1 hi0.tw hi0.mnu hst0 (fun _ h => h) hr
+                  have c : s1.tasks = s0.tasks := resetMnChecked_tasks _ _ _ _ hr
+                  have d : s1.redirects = s0.redirects := resetMnChecked_redirects _ _ _ _ hr
+                  simp only [requeue] at h
+                  refine requeue_tw (hm0 c a b') (by rw [c]; exact ht0) ?_ h
+                  rw [d, hid]
+                  exact hi.tw.no_rd_of_state hst (by simp [hs])
       · cases h
       · cases h
       · cases h
